@@ -643,8 +643,10 @@ Definition exitAfterDefer_visit (d : node) : outcome :=
 Definition run_exitAfterDefer (f : file) : outcome := run_funcdecl false exitAfterDefer_visit f.
 
 (* ---------- hypotheses of the C20 partial theorem of exitAfterDefer ---------- *)
+(* no qualifier `log` / `os` denotes anything but the package, and no identifier is spelled like a qualified name *)
 Definition g_no_namesake_exit (n : node) : bool :=
-  g_no_namesake_qual "log" "log" n && g_no_namesake_qual "os" "os" n.
+  g_no_namesake_qual "log" "log" n && g_no_namesake_qual "os" "os" n &&
+  negb (is_tag TIdent n && mem (nstr n) exit_names).
 
 (* ---------- registry of all modelled checkers (used by the tie) ---------- *)
 Definition run_by_name2 (name : string) (f : file) : option outcome :=
